@@ -2,9 +2,11 @@ import Pms.Props.C07
 import Pms.Props.C07Rot
 import Pms.Model.Dyn
 import Pms.Lemmas.Dyn
+import Pms.Model.Boo
+import Pms.Model.Boo2d
 
 /-!
-# C07 — relaxation functions under periodic images and relabelling; non-vacuity of the hypotheses
+# C07 — relaxation functions under periodic images and relabelling; bond order under relabelling; non-vacuity
 
 `Dyn.Spec.row` / `Dyn.Spec.logRow` are C06's definition of the rows (t, F_s, Q, χ4, MSD, α2).  (Translation invariance is
 `C07_translation_dyn` in `Pms/Props/C07Pair.lean`.)
@@ -125,6 +127,30 @@ theorem C07_relabel_dyn (rint : K → ℤ) (cos : K → K) (X : Dyn.Traj K) (σ 
     exact hmean o _ _ (fun i => by rw [hd2])
   · unfold Dyn.Spec.r4 Dyn.pairR4
     exact hmean o _ _ (fun i => by rw [hd2])
+
+/-! ## bond-orientational order: per-particle outputs permute under relabelling -/
+
+/-- **Relabelling, q_lm / Q_lm (3-D).**  With the neighbour table renamed consistently (row `i` lists the new names
+`σ⁻¹(nb(σ i, j))` of the neighbours of the old particle `σ i`), the local `q_lm` and the coarse-grained `Q_lm` of row `i` are
+those of the old particle `σ i` — so q_l, Q_l, w_l, ŵ_l, which are functions of these vectors, permute with the ids. -/
+theorem C07_relabel_boo {β : Type} [Add β] [Div β] [OfNat β 0] [NatCast β]
+    (cn : ℕ → ℕ) (nb : ℕ → ℕ → ℕ) (Yv : ℕ → ℕ → ℕ → β) (σ : Equiv.Perm ℕ) (i k : ℕ) :
+    Boo.qlmImpl (relabel σ cn) (relabel σ Yv) i k = Boo.qlmImpl cn Yv (σ i) k ∧
+    Boo.QlmImpl (relabel σ cn) (fun i j => σ.symm (nb (σ i) j)) (Boo.qlmImpl (relabel σ cn) (relabel σ Yv)) i k
+      = Boo.QlmImpl cn nb (Boo.qlmImpl cn Yv) (σ i) k := by
+  refine ⟨rfl, ?_⟩
+  simp only [Boo.QlmImpl, Boo.qlmImpl, relabel, Equiv.apply_symm_apply]
+
+/-- **Relabelling, ψ_l (2-D).**  Same statement for `boo_2d.lthorder`: positions and neighbour table renamed consistently,
+the value of row `i` is the value of the old particle `σ i`. -/
+theorem C07_relabel_psi2d {α β : Type} [Add α] [Sub α] [Mul α] [Div α] [OfNat α 0] [IntCast α]
+    [Add β] [Mul β] [Div β] [OfNat β 0] [OfNat β 1] [NatCast β]
+    (E : α → α → β) (rint : α → ℤ) (H Hinv : ℕ → ℕ → α) (ppp : ℕ → α) (pos : ℕ → ℕ → α) (nl : ℕ → ℕ → ℕ)
+    (σ : Equiv.Perm ℕ) (i : ℕ) :
+    Boo2d.phi E rint H Hinv ppp (relabel σ pos)
+        (fun i c => match c with | 0 => nl (σ i) 0 | m + 1 => σ.symm (nl (σ i) (m + 1))) i
+      = Boo2d.phi E rint H Hinv ppp pos nl (σ i) := by
+  simp only [Boo2d.phi, Boo2d.psi, Boo2d.bonds, relabel, Equiv.apply_symm_apply]
 
 /-! ## the hypotheses are satisfiable (non-vacuity) -/
 
